@@ -167,6 +167,9 @@ func pnTerm(s string) string {
 
 type fileModel struct {
 	unsupported string
+	// options on the key / value fields of synthetic map entries (model/ProtoPrintFileX.v entry_opts), one
+	// record per map field that has any
+	entries []string
 }
 
 func (fm *fileModel) skip(format string, a ...any) {
@@ -329,6 +332,14 @@ func (fm *fileModel) msgTerm(m protoreflect.MessageDescriptor) string {
 		}
 		els = append(els, f)
 		body = append(body, "DField "+fm.fieldTerm(f))
+		if f.IsMap() {
+			ko, vo := fm.optsTerm(f.MapKey()), fm.optsTerm(f.MapValue())
+			if ko != "[]" || vo != "[]" {
+				_, path := splitRef(m)
+				fm.entries = append(fm.entries, fmt.Sprintf("{| eo_msg := %s; eo_field := %s; eo_key := %s; eo_value := %s |}",
+					qnameTerm(path), vh.BytesTerm(string(f.Name())), ko, vo))
+			}
+		}
 	}
 	for i := 0; i < m.Oneofs().Len(); i++ {
 		o := m.Oneofs().Get(i)
@@ -386,6 +397,12 @@ func (fm *fileModel) serviceTerm(s protoreflect.ServiceDescriptor) string {
 
 // dfileTerm renders fd as a dfile; unsupported != "" when the file uses a construct outside the model.
 func dfileTerm(fd protoreflect.FileDescriptor) (term string, unsupported string) {
+	term, _, unsupported = dfilexTerm(fd)
+	return term, unsupported
+}
+
+// dfilexTerm: the dfile term and the table of map entry field options (a Coq list of entry_opts).
+func dfilexTerm(fd protoreflect.FileDescriptor) (term string, entries string, unsupported string) {
 	fm := &fileModel{}
 	if fd.Syntax() != protoreflect.Proto3 {
 		fm.skip("not proto3")
@@ -410,9 +427,10 @@ func dfileTerm(fd protoreflect.FileDescriptor) (term string, unsupported string)
 			}
 			switch f.Kind() {
 			case protoreflect.BoolKind:
-				fopts = append(fopts, fmt.Sprintf("(%s, TIdent %s)", vh.BytesTerm(string(f.Name())), vh.BytesTerm(fmt.Sprint(refl.Get(f).Bool()))))
+				fopts = append(fopts, fmt.Sprintf("fopt_of (%s, FBool %v)", vh.BytesTerm(string(f.Name())), refl.Get(f).Bool()))
 			case protoreflect.StringKind:
-				fopts = append(fopts, fmt.Sprintf("(%s, TLit %s)", vh.BytesTerm(string(f.Name())), vh.BytesTerm("\""+refl.Get(f).String()+"\"")))
+				// the typed value: the model writes the literal (fopt_token), the tie compares it with the real tokens
+				fopts = append(fopts, fmt.Sprintf("fopt_of (%s, FStr %s)", vh.BytesTerm(string(f.Name())), vh.BytesTerm(refl.Get(f).String())))
 			default:
 				fm.skip("file option %s is not printed", f.Name())
 			}
@@ -449,7 +467,7 @@ func dfileTerm(fd protoreflect.FileDescriptor) (term string, unsupported string)
 	fm.orderDetermined("the file", tops)
 	term = fmt.Sprintf("{| d_pkg := %s; d_imports := [%s]; d_fopts := [%s]; d_exts := [%s]; d_body := [%s] |}",
 		qnameTerm(string(fd.Package())), strings.Join(imports, ";"), strings.Join(fopts, ";"), strings.Join(exts, ";"), strings.Join(body, ";"))
-	return term, fm.unsupported
+	return term, "[" + strings.Join(fm.entries, ";") + "]", fm.unsupported
 }
 
 // impTerm: the types and packages of the files fd imports.
@@ -487,12 +505,13 @@ func impTerm(fd protoreflect.FileDescriptor) string {
 }
 
 // fileCase builds the c05file term of one printed file (fd printed as txt1, parsed as fd2, printed as txt2).
-func fileCase(fd protoreflect.FileDescriptor, txt1 string, fd2 protoreflect.FileDescriptor, txt2 string) (term string, size int, skip string, err error) {
-	d1, un1 := dfileTerm(fd)
+// lost: the round-trip oracle reported that options on map entry fields were not printed for this file.
+func fileCase(fd protoreflect.FileDescriptor, txt1 string, fd2 protoreflect.FileDescriptor, txt2 string, lost bool) (term string, size int, skip string, err error) {
+	d1, e1, un1 := dfilexTerm(fd)
 	if un1 != "" {
 		return "", 0, un1, nil
 	}
-	d2, un2 := dfileTerm(fd2)
+	d2, e2, un2 := dfilexTerm(fd2)
 	if un2 != "" {
 		return "", 0, un2, nil
 	}
@@ -505,5 +524,5 @@ func fileCase(fd protoreflect.FileDescriptor, txt1 string, fd2 protoreflect.File
 	if txt2 != txt1 {
 		return "", 0, "second print differs (reported by the oracle)", nil
 	}
-	return fmt.Sprintf("CFile %s %s\n %s\n %s %s", impTerm(fd), d1, vh.BytesTerm(txt1), t1, d2), n1 + len(txt1)/4, "", nil
+	return fmt.Sprintf("CFile %s %s %s\n %s\n %s %s %s %v", impTerm(fd), d1, e1, vh.BytesTerm(txt1), t1, d2, e2, lost), n1 + len(txt1)/4, "", nil
 }
